@@ -606,10 +606,16 @@ def _for_with_invariant(ip, s, it, inv):
     fr = ip.frames[-1]
     if isinstance(it, SymRange):
         lo, hi = lift(it.start, 'int').e, lift(it.stop, 'int').e
-        if it.step != 1:
-            raise Unsupported("symbolic range with step")
-        n = simp(z3.If(hi > lo, hi - lo, 0))
-        elem = lambda i: SV(simp(lo + i), 'int')
+        step = it.step
+        if not (isinstance(step, int) and not isinstance(step, bool) and step >= 1):
+            raise Unsupported("symbolic range with a step that is not a positive literal")
+        if step == 1:
+            n = simp(z3.If(hi > lo, hi - lo, 0))
+            elem = lambda i: SV(simp(lo + i), 'int')
+        else:
+            # len(range(lo, hi, step)) = ceil((hi - lo) / step) for hi > lo
+            n = simp(z3.If(hi > lo, (hi - lo + (step - 1)) / step, 0))
+            elem = lambda i: SV(simp(lo + step * i), 'int')
     else:
         sq = ip.seq_view(it)
         if sq is None:
@@ -693,12 +699,39 @@ def apply_contract(ip, c, f, args, kw):
     if c.returns is not None:
         result = c.returns.symbolic(ip, "ret_" + c.name)
     values['result'] = result
+    only = (st.ghost.get('callee_ensures') or {}).get(c.target)
+    defining = None
     for name, ens in c.ensures:
+        if only is not None and name not in only:
+            continue      # the calling unit asked for a subset of this callee's postconditions (assuming less is sound)
         gz = guard_z.get(name)
         pv = eval_cfn(ip, ens, values, old_heap)
         for cl in clauses(pv):
-            st.assume(ip.zbool(cl) if gz is None else z3.Implies(gz, ip.zbool(cl)))
+            z = ip.zbool(cl)
+            st.assume(z if gz is None else z3.Implies(gz, z))
+            # a postcondition of the form `result == term`: hand the term itself to the caller, so that what it builds
+            # from the result matches its own specification syntactically (the equation stays assumed as well)
+            if gz is None and isinstance(result, SV) and z3.is_const(result.e) and defining is None and z3.is_eq(z):
+                for a_, b_ in ((z.arg(0), z.arg(1)), (z.arg(1), z.arg(0))):
+                    if z3.eq(a_, result.e) and not _mentions(b_, result.e):
+                        defining = SV(b_, result.kind)
+                        break
+    if defining is not None:
+        return defining
     return result
+
+
+def _mentions(t, c):
+    todo, seen = [t], set()
+    while todo:
+        x = todo.pop()
+        if x.get_id() in seen:
+            continue
+        seen.add(x.get_id())
+        if z3.eq(x, c):
+            return True
+        todo.extend(x.children())
+    return False
 
 
 # ------------------------------------------------------------------ lemmas
